@@ -2,6 +2,7 @@ import Model.Eval
 import Model.Fixed
 import Model.FixedText
 import Model.EvalSoftFloat
+import Model.FixedTextExp
 /-! C09, values of the FIXED-POINT evaluator: `eval/fixed_operators.go` and the integer-only part of
     `eval/fixed_function.go`, transcribed branch for branch on top of the parser model `Model/Eval.lean`, with the
     arithmetic of `Model/Fixed.lean` (C03: `F64.add/sub/mul/div/mod/abs/trunc/ceil/round/min/max`, raw `int64`
@@ -67,42 +68,19 @@ def floatByte (ch : Nat) : Bool :=
   (48 ≤ ch && ch ≤ 57) || (97 ≤ ch && ch ≤ 102) || (65 ≤ ch && ch ≤ 70) || ch == 120 || ch == 88 || ch == 112 || ch == 80 ||
     ch == 46 || ch == 95 || ch == 43 || ch == 45
 
-/-- `float64(n)` for a natural number (exact for the multipliers `10^k`, `k ≤ 16`: `5^16 < 2^53`) -/
-def f64OfNat (n : Nat) : Nat := SoftFloat.ofRat SoftFloat.f64 false n 1
-
-/-- Go's conversion `int64(x)` of a `float64` (its bit pattern): the value truncated toward zero; `none` for NaN, ±Inf
-    and values outside `int64`, where the Go specification leaves the result to the implementation -/
-def toInt64 (b : Nat) : Option Int :=
-  match SoftFloat.decode SoftFloat.f64 b with
-  | .fin s m e =>
-    let t : Nat := if 0 ≤ e then m * 2 ^ e.toNat else m / 2 ^ (-e).toNat
-    if -2 ^ 63 ≤ SoftFloat.sgn s t ∧ SoftFloat.sgn s t < 2 ^ 63 then some (SoftFloat.sgn s t) else none
-  | _ => none
-
-/-- the `strings.ContainsAny(str, "Ee")` branch of `f64.FromString` (commas already removed):
-    `f, err := strconv.ParseFloat(str, 64)`, then `From[T](f)` = `Int[T](f * float64(Multiplier[T]()))` — one correctly
-    rounded float64 product, then the truncating conversion.  `outside`: hexadecimal / `_` literals (not in
-    `SoftFloat.parse`) and products beyond `int64` -/
-def fromExp (c : Cfg) (s : Bytes) : VR Int :=
-  match SoftFloat.parse SoftFloat.f64 s with
-  | .err => .err
-  | .outside => .outside
-  | .ok x =>
-    match toInt64 (SoftFloat.mul SoftFloat.f64 x (f64OfNat c.mult.toNat)) with
-    | some v => .ok v
-    | none => .outside
-
-/-- `FixedFrom[T](arg)`: `f64.From[T, int](1)` / 0 for a bool, the value itself, `f64.FromString[T]` for a string.
-    A text with `e`/`E` goes to `strconv.ParseFloat`: an error when it holds a byte no float literal can hold (true,
-    false, yes …), otherwise `fromExp` -/
+/-- `FixedFrom[T](arg)`: `f64.From[T, int](1)` / 0 for a bool, the value itself, `f64.FromString[T]` for a string —
+    every branch of `FromString`, through the C04 model `FixedText.fromStrX64` (`Model/FixedTextExp.lean`): a text with
+    `e`/`E` goes to `strconv.ParseFloat(str, 64)` (decimal, `_`-separated and hexadecimal grammars) and
+    `From[T](float64)`; only a scaled value beyond `int64` (implementation-defined conversion) is `outside` -/
 def fixedFrom (c : Cfg) : Val → VR Int
   | .bool b => .ok (if b then Fixed.F64.fromInt c.mult 1 else 0)
   | .num raw => .ok raw
   | .str s =>
-    match FixedText.fromStr64 c.places c.mult s with
+    match FixedText.fromStrX64 c.places c.mult s with
     | .ok raw => .ok raw
     | .err => .err
-    | .exp => if (FixedText.stripCommas s).all floatByte then fromExp c (FixedText.stripCommas s) else .err
+    | .implDefined => .outside
+    | .panic => .outside
 
 /-! ### operators (`fixed_operators.go`) -/
 
